@@ -151,6 +151,15 @@ func ngCards(c *Ctx) (map[string]*types.Const, string) {
 		return true
 	})
 	if len(out) != 2 {
+		all := map[string]*types.Const{}
+		cardsFromTable(p, pk, fd, spell, all)
+		for _, s := range []string{"*?", "+?"} {
+			if k := all[s]; k != nil {
+				out[s] = k
+			}
+		}
+	}
+	if len(out) != 2 {
 		return nil, fmt.Sprintf("on_lexer_card maps %d of the two non-greedy tokens ('*?', '+?') to Card constants", len(out))
 	}
 	return out, ""
